@@ -301,6 +301,11 @@ func matchType(_ Context, doc bsonkit.Doc, name, path string, v interface{}) err
 	}
 
 	return matchUnwind(doc, path, true, false, func(field interface{}) error {
+		// a missing field has no type
+		if field == bsonkit.Missing {
+			return ErrNotMatched
+		}
+
 		class, typ := bsonkit.Inspect(field)
 		if matchNumberClass && class == bsonkit.Number {
 			return nil
@@ -387,7 +392,8 @@ func matchAll(_ Context, doc bsonkit.Doc, name, path string, v interface{}) erro
 		if arr, ok := field.(bson.A); ok {
 			matches := true
 			for _, value := range array {
-				ok := false
+				// a value matches the whole array or one of its elements
+				ok := bsonkit.Compare(value, arr) == 0
 				for _, element := range arr {
 					if bsonkit.Compare(value, element) == 0 {
 						ok = true
